@@ -12,17 +12,18 @@ Definition ud_ok (ud : N -> bool) : Prop := forall c, c < 128 -> ud c = false.
 Definition is_term (c : N) : bool := is_space c || is_punct_char c.
 Definition hd_term (R : str) : bool := match R with [] => true | t :: _ => is_term t end.
 
-(* ---- words: identifiers, keywords, mux indicators.  [A-Za-z][A-Za-z0-9_-]*, classified the
-   way scanText classifies them ---- *)
-Definition wf_word (k : tkind) (v : str) : bool :=
+(* ---- words: identifiers, keywords, mux indicators.  [A-Za-z][A-Za-z0-9_-]* (digits as the
+   scanner's peek sees them: ASCII and the non-ASCII digits below U+10000, class [up]), classified
+   the way scanText classifies them ---- *)
+Definition wf_word (up : N -> bool) (k : tkind) (v : str) : bool :=
   match v with
-  | c :: w => is_letter c && forallb (is_alnum no_ud) w && tkind_eqb (classify_text no_ud c w) k
+  | c :: w => is_letter c && forallb (is_alnum up) w && tkind_eqb (classify_text up c w) k
   | [] => false
   end.
 
 (* an identifier of the expressible grammar: a word that scanText classifies as an identifier,
    i.e. not a keyword and not of mux-indicator shape *)
-Definition expr_ident (v : str) : bool := wf_word KIdent v.
+Definition expr_ident (up : N -> bool) (v : str) : bool := wf_word up KIdent v.
 
 (* ---- strings: no quote, no NUL (code points, so valid UTF-8 by construction) ---- *)
 Definition expr_string (v : str) : bool := forallb (fun c => negb (c =? ch_quote) && negb (c =? 0)) v.
@@ -57,9 +58,9 @@ Definition range_number (v : str) : Prop :=
   exists a b, v = a ++ ch_minus :: b /\ a <> [] /\ b <> [] /\
               forallb ascii_digit a = true /\ forallb ascii_digit b = true.
 
-Definition tok_wf (k : tkind) (v : str) : Prop :=
+Definition tok_wf (up : N -> bool) (k : tkind) (v : str) : Prop :=
   match k with
-  | KIdent | KKeyword | KMux => wf_word k v = true
+  | KIdent | KKeyword | KMux => wf_word up k v = true
   | KNumber => plain_number v = true \/ hex_number v = true
   | KRange => range_number v
   | KString => expr_string v = true
@@ -84,16 +85,16 @@ Definition ok_after (k : tkind) (v : str) (R : str) : bool :=
 Definition sp_ok (s : str) : Prop := s <> [] /\ forallb is_space s = true.
 
 (* a list of pieces followed by the text [tail] lexes back to its tokens *)
-Fixpoint pok (ps : list piece) (tail : str) : Prop :=
+Fixpoint pok (up : N -> bool) (ps : list piece) (tail : str) : Prop :=
   match ps with
   | [] => True
-  | Sp s :: r => sp_ok s /\ pok r tail
-  | Tk k v :: r => tok_wf k v /\ ok_after k v (render r ++ tail) = true /\ pok r tail
+  | Sp s :: r => sp_ok s /\ pok up r tail
+  | Tk k v :: r => tok_wf up k v /\ ok_after k v (render r ++ tail) = true /\ pok up r tail
   end.
 
-Lemma pok_app : forall a b tail, pok (a ++ b) tail <-> pok a (render b ++ tail) /\ pok b tail.
+Lemma pok_app : forall up a b tail, pok up (a ++ b) tail <-> pok up a (render b ++ tail) /\ pok up b tail.
 Proof.
-  induction a as [|p a IH]; intros b tail; cbn [app pok].
+  intros up. induction a as [|p a IH]; intros b tail; cbn [app pok].
   - tauto.
   - destruct p as [s|k v].
     + rewrite IH. tauto.
